@@ -187,122 +187,20 @@ fn concat(term: &[u8; 256], lens: &[i32; 3], members: &[bool; 3], j: i32) -> (i3
     (total, byte)
 }
 
-struct SingleOut {
+/// What a scenario delivered (for the reachability covers of the instance).
+struct AsmOut {
     delivered: usize,
-    first_len: i32,
-    joined_mid: bool,
+    len: [i32; NR],
+    sess: [usize; NR],
 }
 
-fn reassembly_single(init: Option<isize>) -> SingleOut {
-    pretouch();
-    let mut term = Mem::<256>::any();
-    let flags: [u8; 3] = kani::any();
-    let n: usize = kani::any();
-    kani::assume(n >= 1 && n <= 3);
-    let mut k = 0;
-    while k < 3 {
-        put_frame(&mut term.0, FO[k], 32 + LEN_A[k], flags[k], SID_A);
-        k += 1;
-    }
-    let tb = term.buf();
-    let j: i32 = kani::any();
-    kani::assume(j >= 0 && j < 96);
-    let mut got = Got::new(j, [tb.buffer() as usize, 0]);
-    let mut delegate = |b: &AtomicBuffer, off: Index, len: Index, h: &Header| got.note(b, off, len, h);
-    // never dropped: BufferBuilder's Drop runs a byte loop over its capacity in the dev profile
-    let mut asm = ManuallyDrop::new(FragmentAssembler::new(&mut delegate, init));
-    {
-        let mut handler = asm.handler();
-        let mut hdr = Header::new(TERM_ID, 256);
-        hdr.set_buffer(tb);
-        k = 0;
-        while k < 3 {
-            if k < n {
-                hdr.set_offset(FO[k] as i32);
-                handler(&tb, FO[k] as i32 + 32, LEN_A[k], &hdr);
-            }
-            k += 1;
-        }
-    }
-    let mut want = Want::new();
-    let mut s = Sess::new();
-    k = 0;
-    while k < 3 {
-        if k < n {
-            if let Some(m) = s.feed(k, flags[k]) {
-                want.push(0, m, k);
-            }
-        }
-        k += 1;
-    }
-    assert!(got.calls == want.calls, "C01: the delegate is called exactly once per completed message and never for anything else");
-    let c: usize = kani::any();
-    kani::assume(c < want.calls);
-    let (len, byte) = concat(&term.0, &LEN_A, &want.members[c], j);
-    assert!(got.len[c] == len, "C01: delivered length is the sum of the message's fragment payload lengths, in offer order");
-    if j < len {
-        assert!(got.byte[c] == byte, "C01: delivered bytes are the concatenation of the message's fragment payloads");
-    }
-    assert!(got.sid[c] == SID_A && got.hoff[c] == FO[want.last[c]] as i32, "C01: the header handed over is that of the message's last fragment");
-    let single = (flags[want.last[c]] & 0xC0) == 0xC0;
-    assert!(got.in_term[c] == single, "C01: unfragmented messages are handed over in place, assembled ones from the session buffer");
-    if single {
-        assert!(got.off[c] == FO[want.last[c]] as i32 + 32, "C01: unfragmented message delivered at its own payload offset");
-    }
-    let (first_len, _) = concat(&term.0, &LEN_A, &want.members[0], 0);
-    SingleOut { delivered: want.calls, first_len: if want.calls > 0 { first_len } else { -1 }, joined_mid: flags[0] & 0x80 == 0 }
-}
-
-/// initial buffer 64: header + first fragment fit exactly, the second and the third fragment each reallocate
-// @verif tier=quick unwind=10 unwindset=dealloc_buffer_aligned:100
-#[kani::proof]
-#[kani::stub(std::hash::RandomState::new, fixed_random_state)]
-#[kani::stub(<std::hash::DefaultHasher as std::hash::Hasher>::finish, fixed_finish)]
-fn c01_reassembly_single_session_growth() {
-    let o = reassembly_single(Some(64));
-    kani::cover!(o.delivered == 1 && o.first_len == 71, "[must] three fragments reassembled: growth path of the builder taken twice");
-    kani::cover!(o.delivered == 1 && o.first_len == 64, "[must] two fragments reassembled: growth path of the builder taken");
-    kani::cover!(o.joined_mid && o.delivered == 1 && o.first_len == 39, "[must] mid-message join ignored, the next message start is delivered");
-    kani::cover!(o.delivered == 3, "[must] three unfragmented messages");
-    kani::cover!(o.delivered == 0, "[must] nothing complete: nothing delivered");
-}
-
-/// default initial buffer (4096): no reallocation
-// @verif tier=quick unwind=10
-#[kani::proof]
-#[kani::stub(std::hash::RandomState::new, fixed_random_state)]
-#[kani::stub(<std::hash::DefaultHasher as std::hash::Hasher>::finish, fixed_finish)]
-fn c01_reassembly_single_session_default_buffer() {
-    let o = reassembly_single(None);
-    kani::cover!(o.delivered == 1 && o.first_len == 71, "[must] three fragments reassembled");
-    kani::cover!(o.joined_mid && o.delivered == 1 && o.first_len == 39, "[must] mid-message join ignored, the next message start is delivered");
-}
-
-/// initial buffer 32 = header only: the very first fragment reallocates
-// @verif tier=thorough unwind=10 unwindset=dealloc_buffer_aligned:110
-#[kani::proof]
-#[kani::stub(std::hash::RandomState::new, fixed_random_state)]
-#[kani::stub(<std::hash::DefaultHasher as std::hash::Hasher>::finish, fixed_finish)]
-fn c01_reassembly_single_session_header_only_buffer() {
-    let o = reassembly_single(Some(32));
-    kani::cover!(o.delivered == 1 && o.first_len == 71, "[must] three fragments reassembled: growth path of the builder taken");
-}
-
-struct TwoOut {
-    delivered: usize,
-    a_len: i32,
-    b_len: i32,
-    interleaved: bool,
-    b_joined_mid: bool,
-}
-
-/// Two sessions interleaved at fragment granularity.
-fn assembler_two_sessions(init: Option<isize>) -> TwoOut {
+/// One literal scenario: `fa` / `fb` are the FLAGS bytes of session A's three and session B's two frames, `order`
+/// says whose next frame is fed (0 = A, 1 = B). Literal per instance (see the module comment: the assembler's HashMap
+/// cannot be executed with anything symbolic steering it); symbolic: every payload byte, the probe index.
+fn assembler_scenario(init: Option<isize>, fa: [u8; 3], fb: [u8; 2], order: &[usize]) -> AsmOut {
     pretouch();
     let mut ta = Mem::<256>::any();
     let mut tb = Mem::<256>::any();
-    let fa: [u8; 3] = kani::any();
-    let fb: [u8; 3] = kani::any();
     let mut k = 0;
     while k < 3 {
         put_frame(&mut ta.0, FO[k], 32 + LEN_A[k], fa[k], SID_A);
@@ -312,15 +210,13 @@ fn assembler_two_sessions(init: Option<isize>) -> TwoOut {
         k += 1;
     }
     let (ba, bb) = (ta.buf(), tb.buf());
-    // order[s]: the next fragment comes from session A (if it has one left)
-    let order: [bool; 5] = kani::any();
     let j: i32 = kani::any();
     kani::assume(j >= 0 && j < 96);
     let mut got = Got::new(j, [ba.buffer() as usize, bb.buffer() as usize]);
     let mut delegate = |b: &AtomicBuffer, off: Index, len: Index, h: &Header| got.note(b, off, len, h);
+    // never dropped: BufferBuilder's Drop runs a byte loop over its capacity in the dev profile
     let mut asm = ManuallyDrop::new(FragmentAssembler::new(&mut delegate, init));
     let mut want = Want::new();
-    let mut interleaved = false;
     {
         let mut handler = asm.handler();
         let mut ha = Header::new(TERM_ID, 256);
@@ -330,40 +226,17 @@ fn assembler_two_sessions(init: Option<isize>) -> TwoOut {
         let (mut sa, mut sb) = (Sess::new(), Sess::new());
         let (mut ia, mut ib) = (0usize, 0usize);
         let mut s = 0;
-        while s < 5 {
-            let take_a = ib >= 2 || (order[s] && ia < 3);
-            if take_a {
-                // literal frame per arm: the session id the assembler hashes stays a constant
-                match ia {
-                    0 => {
-                        ha.set_offset(0);
-                        handler(&ba, 32, LEN_A[0], &ha);
-                    }
-                    1 => {
-                        ha.set_offset(64);
-                        handler(&ba, 64 + 32, LEN_A[1], &ha);
-                    }
-                    _ => {
-                        ha.set_offset(128);
-                        handler(&ba, 128 + 32, LEN_A[2], &ha);
-                    }
-                }
+        while s < order.len() {
+            if order[s] == 0 {
+                ha.set_offset(FO[ia] as i32);
+                handler(&ba, FO[ia] as i32 + 32, LEN_A[ia], &ha);
                 if let Some(m) = sa.feed(ia, fa[ia]) {
                     want.push(0, m, ia);
                 }
-                interleaved = interleaved || (ia > 0 && ib > 0 && ib < 2);
                 ia += 1;
             } else {
-                match ib {
-                    0 => {
-                        hb.set_offset(0);
-                        handler(&bb, 32, LEN_B[0], &hb);
-                    }
-                    _ => {
-                        hb.set_offset(64);
-                        handler(&bb, 64 + 32, LEN_B[1], &hb);
-                    }
-                }
+                hb.set_offset(FO[ib] as i32);
+                handler(&bb, FO[ib] as i32 + 32, LEN_B[ib], &hb);
                 if let Some(m) = sb.feed(ib, fb[ib]) {
                     want.push(1, m, ib);
                 }
@@ -373,43 +246,89 @@ fn assembler_two_sessions(init: Option<isize>) -> TwoOut {
         }
     }
     assert!(got.calls == want.calls, "C20: each session's completed messages are delivered exactly once and nothing else is");
-    let c: usize = kani::any();
-    kani::assume(c < want.calls);
-    let is_a = want.sess[c] == 0;
-    let (len, byte) = if is_a { concat(&ta.0, &LEN_A, &want.members[c], j) } else { concat(&tb.0, &LEN_B, &want.members[c], j) };
-    assert!(got.sid[c] == if is_a { SID_A } else { SID_B }, "C20: deliveries happen in the order the sessions complete their messages (per-session order kept)");
-    assert!(got.len[c] == len, "C20: delivered length is the sum of that session's fragment payload lengths only");
-    if j < len {
-        assert!(got.byte[c] == byte, "C20: delivered bytes are the concatenation of that session's fragments only (sessions never mix)");
-    }
-    assert!(got.hoff[c] == FO[want.last[c]] as i32, "C20: the header handed over is that of the session's last fragment");
-    // summary for the covers: the first message of each session
-    let (mut a_len, mut b_len) = (-1, -1);
-    let mut i = 0;
-    while i < NR {
-        if i < want.calls {
-            if want.sess[i] == 0 && a_len < 0 {
-                a_len = concat(&ta.0, &LEN_A, &want.members[i], 0).0;
+    let mut out = AsmOut { delivered: want.calls, len: [-1; NR], sess: [9; NR] };
+    let mut c = 0;
+    while c < NR {
+        if c < want.calls {
+            let is_a = want.sess[c] == 0;
+            let (len, byte) = if is_a { concat(&ta.0, &LEN_A, &want.members[c], j) } else { concat(&tb.0, &LEN_B, &want.members[c], j) };
+            let last = want.last[c];
+            assert!(got.sid[c] == if is_a { SID_A } else { SID_B }, "C20: deliveries happen in the order the sessions complete their messages (per-session order kept)");
+            assert!(got.len[c] == len, "C20: delivered length is the sum of that session's fragment payload lengths only, in order");
+            if j < len {
+                assert!(got.byte[c] == byte, "C20: delivered bytes are the concatenation of that session's fragments only (sessions never mix)");
             }
-            if want.sess[i] == 1 && b_len < 0 {
-                b_len = concat(&tb.0, &LEN_B, &want.members[i], 0).0;
+            assert!(got.hoff[c] == FO[last] as i32, "C20: the header handed over is that of the message's last fragment");
+            let single = ((if is_a { fa[last] } else { fb[last] }) & 0xC0) == 0xC0;
+            assert!(got.in_term[c] == single, "C20: unfragmented messages are handed over in place, assembled ones from the session buffer");
+            if single {
+                assert!(got.off[c] == FO[last] as i32 + 32, "C20: unfragmented message delivered at its own payload offset");
             }
+            out.len[c] = len;
+            out.sess[c] = want.sess[c];
         }
-        i += 1;
+        c += 1;
     }
-    TwoOut { delivered: want.calls, a_len, b_len, interleaved, b_joined_mid: fb[0] & 0x80 == 0 }
+    out
 }
 
-// @verif tier=quick unwind=10 unwindset=simd_bitmask_impl:17,find_inner:3,find_insert_index:3,find_suitable_capacity:5
-#[kani::proof]
-#[kani::stub(std::hash::RandomState::new, fixed_random_state)]
-#[kani::stub(<std::hash::DefaultHasher as std::hash::Hasher>::finish, fixed_finish)]
-fn c20_assembler_two_sessions_interleaved() {
-    let o = assembler_two_sessions(None);
-    kani::cover!(o.interleaved && o.delivered == 2 && o.a_len == 71 && o.b_len == 41, "[must] both multi-fragment messages reassembled from a true interleaving");
-    kani::cover!(o.b_joined_mid && o.b_len < 0 && o.a_len == 71, "[must] session joined mid-message yields nothing while the other session is reassembled");
-    kani::cover!(o.b_joined_mid && o.b_len == 9, "[must] mid-message join ignored, that session's next message start is delivered");
+const U: u8 = 0xC0; // unfragmented
+const B: u8 = 0x80; // BEGIN
+const M: u8 = 0x00; // middle
+const E: u8 = 0x40; // END
+const X: u8 = 0x3F; // reserved bits set: must not matter
+
+macro_rules! assembler_case {
+    ($name:ident, $init:expr, $fa:expr, $fb:expr, $order:expr, [$($want_len:expr),*], $must:literal) => {
+        #[kani::proof]
+        #[kani::stub(std::hash::RandomState::new, fixed_random_state)]
+        #[kani::stub(<std::hash::DefaultHasher as std::hash::Hasher>::finish, fixed_finish)]
+        fn $name() {
+            let o = assembler_scenario($init, $fa, $fb, &$order);
+            let expect: &[i32] = &[$($want_len),*];
+            // the instance's own expectation, spelled out (the oracle above is the state machine; this is the literal)
+            kani::assert(o.delivered == expect.len(), concat!("C20: ", stringify!($name), ": number of deliveries"));
+            let mut i = 0;
+            while i < expect.len() {
+                kani::assert(o.len[i] == expect[i], concat!("C20: ", stringify!($name), ": delivered lengths"));
+                i += 1;
+            }
+            kani::cover!(o.delivered == expect.len(), $must);
+        }
+    };
 }
+
+// Single session (the C01 obligation). Hash-map loops: at most 2 colliding entries => bound 3 (unwinding assertions
+// on). Cost is driven by the number of BufferBuilder appends in the scenario (the builder's fields are read back from
+// the hash table, so each append also explores the reallocation branch with solver-only sizes): 0 appends 25 s,
+// 2 appends 2-4 min / 4-10 M variables, 3 appends 18 M variables (thorough tier, 24 GB).
+// @verif tier=quick unwind=10 fs=300 unwindset=hashbrown:3,simd_bitmask_impl:17,find_suitable_capacity:4,dealloc_buffer_aligned:2
+assembler_case!(c01_reassembly_mid_message_join, None, [E | X, B | X, E | X], [U, U], [0, 0, 0], [39], "[must] mid-message join ignored, the next message start is delivered");
+// @verif tier=quick unwind=10 fs=300 unwindset=hashbrown:3,simd_bitmask_impl:17,find_suitable_capacity:4,dealloc_buffer_aligned:2
+assembler_case!(c01_reassembly_unfragmented_then_two, None, [U, B, E], [U, U], [0, 0, 0], [32, 39], "[must] unfragmented message passed through, then a two-fragment message");
+// @verif tier=quick unwind=10 fs=300 unwindset=hashbrown:3,simd_bitmask_impl:17,find_suitable_capacity:4,dealloc_buffer_aligned:2
+assembler_case!(c01_reassembly_never_started, None, [M, E, U], [U, U], [0, 0, 0], [7], "[must] fragments without a start dropped, unfragmented message still delivered");
+// @verif tier=thorough unwind=10 fs=300 unwindset=hashbrown:3,simd_bitmask_impl:17,find_suitable_capacity:4,dealloc_buffer_aligned:2
+assembler_case!(c01_reassembly_two_messages, None, [B, E, U], [U, U], [0, 0, 0], [64, 7], "[must] two messages in offer order");
+// @verif tier=thorough mem=24 unwind=10 fs=300 unwindset=hashbrown:3,simd_bitmask_impl:17,find_suitable_capacity:4,dealloc_buffer_aligned:2
+assembler_case!(c01_reassembly_three_fragments, None, [B, M, E], [U, U], [0, 0, 0], [71], "[must] three fragments reassembled into one message");
+// @verif tier=thorough mem=24 unwind=10 fs=300 unwindset=hashbrown:3,simd_bitmask_impl:17,find_suitable_capacity:4,dealloc_buffer_aligned:2
+assembler_case!(c01_reassembly_restart, None, [B, B, E], [U, U], [0, 0, 0], [39], "[must] a new BEGIN abandons the unfinished message");
+/// initial buffer 32 = header only: both fragments reallocate (32 -> 72 -> 108)
+// @verif tier=thorough mem=24 unwind=10 fs=300 unwindset=hashbrown:3,simd_bitmask_impl:17,find_suitable_capacity:4,dealloc_buffer_aligned:74
+assembler_case!(c01_reassembly_two_fragments_growth, Some(32), [B, E, U], [U, U], [0, 0], [64], "[must] growth path of the builder taken");
+
+// Two sessions interleaved at fragment granularity (A = session 5, B = session 9; order 0 = A's next frame, 1 = B's).
+// @verif tier=quick unwind=10 fs=300 unwindset=hashbrown:3,simd_bitmask_impl:17,find_suitable_capacity:4,dealloc_buffer_aligned:2
+assembler_case!(c20_assembler_interleaved_session_joined_mid_message, None, [B, E, U], [E | X, U], [0, 1, 0, 1], [64, 9], "[must] mid-message join ignored: the joining session yields nothing until its next message start, the other is intact");
+// @verif tier=thorough unwind=10 fs=300 unwindset=hashbrown:3,simd_bitmask_impl:17,find_suitable_capacity:4,dealloc_buffer_aligned:2
+assembler_case!(c20_assembler_interleaved_join_never_starts, None, [B, E, U], [M, E], [1, 0, 1, 0], [64], "[must] fragments of a session that never started are not mixed into the other session's message");
+// @verif tier=thorough mem=24 unwind=10 fs=300 unwindset=hashbrown:3,simd_bitmask_impl:17,find_suitable_capacity:4,dealloc_buffer_aligned:2
+assembler_case!(c20_assembler_interleaved_pending_other_session, None, [B, E, U], [B, E], [0, 1, 0], [64], "[must] a message completes while the other session's message is still pending: nothing of it leaks");
+// @verif tier=thorough mem=24 unwind=10 fs=300 unwindset=hashbrown:3,simd_bitmask_impl:17,find_suitable_capacity:4,dealloc_buffer_aligned:2
+assembler_case!(c20_assembler_interleaved_a0b0a1b1, None, [B, E, U], [B, E], [0, 1, 0, 1], [64, 41], "[must] both multi-fragment messages reassembled from a true interleaving");
+// @verif tier=off mem=24 unwind=10 fs=300 unwindset=hashbrown:3,simd_bitmask_impl:17,find_suitable_capacity:4,dealloc_buffer_aligned:2
+assembler_case!(c20_assembler_interleaved_a0b0a1b1a2, None, [B, M, E], [B, E], [0, 1, 0, 1, 0], [41, 71], "[must] three- and two-fragment messages reassembled from a true interleaving");
 
 // ---------------------------------------------------------------------------------------------------------------
 // C: Subscription::poll / controlled_poll over several images
@@ -744,116 +663,221 @@ macro_rules! poll_family {
     };
 }
 
-// backlog codes: base-4 digit i selects image i's length words among none / one frame / two frames / gap (second frame
-// committed behind an uncommitted first one: nothing visible)
-// @verif tier=quick unwind=10
-poll_family!(c20_poll_two_images_any_backlog, 2, [0, 1], plain_poll, [0, 1, 2], [0, 1, 2, 3, 4, 5, 6, 7, 8, 9, 10, 11, 12, 13, 14, 15]);
+// backlog codes: base-4 digit i selects image i's length words among 0 = none / 1 = one frame / 2 = two frames /
+// 3 = gap (second frame committed behind an uncommitted first one: nothing visible)
+// @verif tier=quick unwind=10 fs=200
+poll_family!(c20_poll_two_images_any_backlog, 2, [0, 1], plain_poll, [0, 1, 2], [0, 1, 2, 4, 5, 6, 8, 9, 10, 3, 14]);
+// @verif tier=quick unwind=10 fs=200
+poll_family!(c20_poll_two_images_controlled, 2, [0, 1], controlled_poll, [0, 1, 2], [0, 2, 5, 6, 9, 10]);
+// @verif tier=thorough unwind=10 fs=200
+poll_family!(c20_poll_three_images_any_backlog, 3, [0, 1, 2], plain_poll, [0, 1, 2, 3],
+    [0, 1, 2, 4, 5, 6, 8, 9, 10, 16, 17, 18, 20, 21, 22, 24, 25, 26, 32, 33, 34, 36, 37, 38, 40, 41, 42, 3, 30, 35]);
+// @verif tier=thorough unwind=10 fs=200
+poll_family!(c20_poll_three_images_controlled, 3, [0, 1, 2], controlled_poll, [0, 1, 2, 3], [0, 21, 26, 38, 41, 42, 9, 18]);
 
-// PROBES (temporary)
-macro_rules! spin { ($name:ident) => { #[inline(never)] fn $name(w: i64) -> i64 { let mut k = 0; while k < w { k += 1; } k } }; }
-spin!(spin_raw);
-spin!(spin_ab);
-spin!(spin_lb);
-spin!(spin_arc);
-spin!(spin_img_len);
-spin!(spin_img_pos);
-spin!(spin_vol);
-spin!(spin_vecab);
-
-// @verif tier=off unwind=10
-#[kani::proof]
-fn c20_zz_probe_opacity() {
-    pretouch();
-    mems!(mem);
-    let mut img = image(&mem, 0, 5);
-    mem.set_words(0, [3, 3]);
-    let raw = unsafe { *(mem.log[0] as *const i32) } as i64;
-    spin_raw(raw);
-    let ab = AtomicBuffer::new(mem.log[0], 64);
-    spin_ab(ab.get::<i32>(0) as i64);
-    spin_vol(ab.get_volatile::<i32>(0) as i64);
-    let lb = unsafe { LogBuffers::new(mem.log[0], LOGLEN as isize, T as i32) };
-    spin_lb(lb.atomic_buffer(0).get::<i32>(0) as i64);
-    let arc = Arc::new(lb);
-    spin_arc(arc.atomic_buffer(0).get::<i32>(0) as i64);
-    let v: Vec<AtomicBuffer> = (0..3).map(|i| arc.atomic_buffer(i)).collect();
-    spin_vecab(v[0].get::<i32>(0) as i64);
-    spin_img_len((img.term_buffer_length() / 16) as i64);
-    spin_img_pos(img.position() + 3);
-    std::mem::forget(img);
-    std::mem::forget(arc);
-    std::mem::forget(v);
+/// Fairness: every image has two frames (the worst case of the statement: earlier images always have data), every
+/// call has fragment limit 1. From any rotation state, n + 1 consecutive calls serve every image at least once.
+fn fairness_leaf(n: usize, sub: &mut Subscription, mem: &Mems, warm: usize) -> FairOut {
+    let mut i = 0;
+    while i < n {
+        mem.set_words(i, [FRAME, FRAME]);
+        i += 1;
+    }
+    i = 0;
+    while i < warm {
+        idle_poll(sub);
+        i += 1;
+    }
+    let mut seen = Seen::new(mem.bases());
+    let mut served = [NOBODY; 5];
+    let mut unserved_after_n = false;
+    let mut call = 0;
+    while call < n + 1 {
+        let before = seen.taken;
+        let bl = [2 - before[0], 2 - before[1], 2 - before[2], 2 - before[3]];
+        seen.begin_call();
+        let r = plain_poll(sub, &mut seen, 1);
+        let mut left = [0i64; 4];
+        let mut k = 0;
+        while k < n {
+            left[k] = bl[k];
+            k += 1;
+        }
+        check_poll(n, &[0, 1, 2, 3], mem, &seen, &left, &before, 1, r);
+        assert!(r == 1, "C20: with data available a call with limit 1 delivers exactly one fragment");
+        served[call] = seen.first;
+        if call + 1 == n {
+            k = 0;
+            while k < n {
+                unserved_after_n = unserved_after_n || seen.taken[k] == 0;
+                k += 1;
+            }
+        }
+        call += 1;
+    }
+    i = 0;
+    while i < n {
+        assert!(seen.taken[i] >= 1, "C20: every image with data is served within n + 1 calls even when the images in front of it always have data");
+        i += 1;
+    }
+    let mut wrapped = false;
+    let mut twice = false;
+    call = 0;
+    while call < n {
+        wrapped = wrapped || served[call + 1] < served[call];
+        twice = twice || served[call + 1] == served[call];
+        call += 1;
+    }
+    FairOut { unserved_after_n, wrapped, twice, warm }
 }
 
-// @verif tier=off unwind=10
-#[kani::proof]
-fn c20_zz_probe_real_add() {
+#[derive(Copy, Clone)]
+struct FairOut {
+    unserved_after_n: bool,
+    wrapped: bool,
+    twice: bool,
+    warm: usize,
+}
+
+macro_rules! fairness_family {
+    ($name:ident, $n:literal, [$($img:literal),+], [$($warm:literal),+]) => {
+        #[kani::proof]
+        fn $name() {
+            pretouch();
+            mems!(mem);
+            let sessions: [i32; 4] = kani::any();
+            let mut sub = subscription();
+            let mut images = ManuallyDrop::new([$(image(&mem, $img, sessions[$img])),+]);
+            inject(&mut sub, images.as_mut_ptr(), $n);
+            let warm: usize = kani::any();
+            kani::assume(warm <= $n);
+            let o = split!(warm, |w| fairness_leaf($n, &mut sub, &mem, w), $($warm),+);
+            std::mem::forget(sub);
+            kani::cover!(o.wrapped, "[must] wrap-around of the round-robin index: the starting image goes back to an earlier one");
+            kani::cover!(o.unserved_after_n, "n calls are not enough from the wrap state: the bound is n + 1 (as in the Java / C++ clients)");
+            kani::cover!(o.twice, "the first image is served twice in a row at the wrap (rotation restarts at 0 after the reset)");
+        }
+    };
+}
+// @verif tier=quick unwind=10 fs=200
+fairness_family!(c20_poll_two_images_fairness, 2, [0, 1], [0, 1, 2]);
+// @verif tier=thorough unwind=10 fs=200
+fairness_family!(c20_poll_three_images_fairness, 3, [0, 1, 2], [0, 1, 2, 3]);
+
+// ---- the real add_image / remove_image between polls ------------------------------------------------------------
+// One list mutation per harness, on top of an injected list; rotation state and the image concerned are literals of
+// the instance. After the mutation the list is the heap Vec the real code allocates (opaque to symbolic execution:
+// minutes per harness), so these are thorough-tier.
+
+/// images 0 and 1 listed, `warm` idle polls, add image 2, then n + 1 = 4 calls with limit 1: the added image is served
+/// within them, every call delivers one fragment, no image is polled twice in a call, nothing is delivered twice.
+fn add_image_case(warm: usize) {
     pretouch();
     mems!(mem);
+    let sessions: [i32; 4] = kani::any();
     let mut sub = subscription();
-    std::mem::forget(sub.add_image(image(&mem, 0, 5)));
-    std::mem::forget(sub.add_image(image(&mem, 1, 6)));
-    mem.set_words(0, [FRAME, FRAME]);
-    mem.set_words(1, [FRAME, 0]);
-    let mut n = 0;
-    let mut h = |_: &AtomicBuffer, _: Index, _: Index, _: &Header| n += 1;
-    let r = sub.poll(&mut h, 5);
-    assert!(r == 3, "C20: probe");
+    let mut images = ManuallyDrop::new([image(&mem, 0, sessions[0]), image(&mem, 1, sessions[1])]);
+    inject(&mut sub, images.as_mut_ptr(), 2);
+    let mut i = 0;
+    while i < 3 {
+        mem.set_words(i, [FRAME, FRAME]);
+        i += 1;
+    }
+    i = 0;
+    while i < warm {
+        idle_poll(&mut sub);
+        i += 1;
+    }
+    let old = sub.add_image(image(&mem, 2, sessions[2]));
+    assert!(old.len() == 2 && sub.image_count() == 3, "C20: add_image appends to the list and returns the previous list");
+    assert!(sub.has_image(CORR[2]) && sub.has_image(CORR[0]) && sub.has_image(CORR[1]), "C20: the list holds the old images and the added one");
+    std::mem::forget(old);
+    let mut seen = Seen::new(mem.bases());
+    let mut call = 0;
+    while call < 4 {
+        let before = seen.taken;
+        seen.begin_call();
+        let r = plain_poll(&mut sub, &mut seen, 1);
+        assert!(r == 1 && seen.calls == 1 && !seen.stranger && seen.in_order && !seen.revisited, "C20: after add_image each call with limit 1 delivers exactly one, next-in-order fragment");
+        let mut k = 0;
+        while k < 3 {
+            assert!(mem.position(k) == FRAME as i64 * seen.taken[k], "C20: positions advance by exactly the fragments delivered");
+            k += 1;
+        }
+        call += 1;
+    }
+    assert!(seen.taken[2] >= 1, "C20: an added image is served within n + 1 calls");
+    assert!(seen.taken[0] >= 1 && seen.taken[1] >= 1, "C20: the old images keep being served after add_image");
+    kani::cover!(seen.taken[0] == 2 || seen.taken[1] == 2, "[must] one image served twice within the n + 1 calls");
     std::mem::forget(sub);
 }
 
-// @verif tier=off unwind=10
-#[kani::proof]
-#[kani::stub(std::hash::RandomState::new, fixed_random_state)]
-#[kani::stub(<std::hash::DefaultHasher as std::hash::Hasher>::finish, fixed_finish)]
-fn c20_zz_probe_asm() {
+/// images 0..3 listed, `warm` idle polls (rotation index up to 3), remove image `which` (3 = an id that is not listed),
+/// then one call with any limit over what is left.
+fn remove_image_case(warm: usize, which: usize) {
     pretouch();
-    let mut term = Mem::<256>::any();
-    put_frame(&mut term.0, 0, 64, 0x80, SID_A);
-    put_frame(&mut term.0, 64, 64, 0x00, SID_A);
-    put_frame(&mut term.0, 128, 39, 0x40, SID_A);
-    let tb = term.buf();
-    let mut got = Got::new(3, [tb.buffer() as usize, 0]);
-    let mut delegate = |b: &AtomicBuffer, off: Index, len: Index, h: &Header| got.note(b, off, len, h);
-    let asm: &mut FragmentAssembler = Box::leak(Box::new(FragmentAssembler::new(&mut delegate, None)));
-    {
-        let mut handler = asm.handler();
-        let mut hdr = Header::new(TERM_ID, 256);
-        hdr.set_buffer(tb);
-        hdr.set_offset(0);
-        handler(&tb, 32, 32, &hdr);
-        hdr.set_offset(64);
-        handler(&tb, 96, 32, &hdr);
-        hdr.set_offset(128);
-        handler(&tb, 160, 7, &hdr);
+    mems!(mem);
+    let sessions: [i32; 4] = kani::any();
+    let mut sub = subscription();
+    let mut images = ManuallyDrop::new([image(&mem, 0, sessions[0]), image(&mem, 1, sessions[1]), image(&mem, 2, sessions[2])]);
+    inject(&mut sub, images.as_mut_ptr(), 3);
+    let mut i = 0;
+    while i < 3 {
+        mem.set_words(i, [FRAME, FRAME]);
+        i += 1;
     }
-    assert!(got.calls == 1 && got.len[0] == 71, "C20: probe");
+    i = 0;
+    while i < warm {
+        idle_poll(&mut sub);
+        i += 1;
+    }
+    let mut ids = [0usize, 1, 2, 3];
+    let mut bl = [2i64, 2, 2, 0];
+    let mut n = 3;
+    match sub.remove_image(CORR[which]) {
+        Some((old, index)) => {
+            assert!(which < 3 && index as usize == which && old.len() == 3, "C20: remove_image reports the removed position and the previous list");
+            std::mem::forget(old);
+            n = 2;
+            bl[which] = 0;
+            ids = match which {
+                0 => [1, 2, 3, 3],
+                1 => [0, 2, 3, 3],
+                _ => [0, 1, 3, 3],
+            };
+        }
+        None => assert!(which == 3, "C20: remove_image of a listed image must succeed"),
+    }
+    assert!(sub.image_count() == n && !sub.has_image(CORR[which]), "C20: the removed image is no longer listed");
+    let limit: i32 = kani::any();
+    let mut seen = Seen::new(mem.bases());
+    seen.begin_call();
+    let r = plain_poll(&mut sub, &mut seen, limit);
+    let starved = check_poll(n, &ids, &mem, &seen, &bl, &[0; 4], limit, r);
+    if which < 3 {
+        assert!(seen.per[which] == 0 && mem.position(which) == 0, "C20: a removed image is no longer polled");
+    }
+    kani::cover!(r == 4 || (which == 3 && r == 6), "[must] everything left is drained in one call after the removal");
+    kani::cover!(starved && limit > 0, "[must] limit reached before all images polled");
+    std::mem::forget(sub);
 }
 
-spin!(spin_map);
-// @verif tier=off unwind=10
-#[kani::proof]
-#[kani::stub(std::hash::RandomState::new, fixed_random_state)]
-#[kani::stub(<std::hash::DefaultHasher as std::hash::Hasher>::finish, fixed_finish)]
-fn c20_zz_probe_map() {
-    let mut m: std::collections::HashMap<i32, i32> = std::collections::HashMap::new();
-    m.insert(5, 3);
-    let v = match m.get(&5) { Some(v) => *v, None => 9 };
-    spin_map(v as i64);
-    std::mem::forget(m);
+macro_rules! list_case {
+    ($name:ident, $f:ident, $($arg:expr),+) => {
+        #[kani::proof]
+        fn $name() {
+            $f($($arg),+)
+        }
+    };
 }
-
-spin!(spin_ms);
-spin!(spin_plain);
-// @verif tier=off unwind=10
-#[kani::proof]
-fn c20_zz_probe_memset() {
-    unsafe {
-        let p = std::alloc::alloc(std::alloc::Layout::from_size_align_unchecked(116, 16));
-        *p.add(100) = 3;
-        spin_plain(*p.add(100) as i64);
-        p.add(96).write_bytes(0xFF, 20);
-        spin_ms(*p.add(99) as i64 - 252);
-        spin_plain(*p.add(100) as i64 - 252);
-    }
-}
+// @verif tier=thorough unwind=10 fs=1200 unwindset=term_reader4read:4
+list_case!(c20_poll_add_image_rr0, add_image_case, 0);
+// @verif tier=thorough unwind=10 fs=1200 unwindset=term_reader4read:4
+list_case!(c20_poll_add_image_rr2, add_image_case, 2);
+// rotation index 3 >= new length 2: the reset path
+// @verif tier=thorough unwind=10 fs=1200 unwindset=term_reader4read:4
+list_case!(c20_poll_remove_image_rr3_first, remove_image_case, 3, 0);
+// @verif tier=thorough unwind=10 fs=1200 unwindset=term_reader4read:4
+list_case!(c20_poll_remove_image_rr2_last, remove_image_case, 2, 2);
+// @verif tier=thorough unwind=10 fs=1200 unwindset=term_reader4read:4
+list_case!(c20_poll_remove_image_rr1_unknown_id, remove_image_case, 1, 3);
